@@ -1027,6 +1027,9 @@ func runC13(ctx *Ctx, c *xt.T) (*xt.T, Verdict) {
 		cli = c.Kids[4].Kids[1].N != 0
 	}
 	env := &c13Env{u: u, workers: workers}
+	if c.Kids[2].Kids[0].N == 9 {
+		return runC13Pull(ctx, env, c)
+	}
 	var base []c13Write
 	fresh := func(extra []c13Write, rec *c13Rec) *c13Stores {
 		st := c13NewStores(rec)
@@ -1193,7 +1196,7 @@ func runC13(ctx *Ctx, c *xt.T) (*xt.T, Verdict) {
 }
 
 func c13OpName(k uint64) string {
-	return []string{"commit", "commitWithTable", "DeleteHead", "merge", "merge(no-ff)", "merge(ff)", "fetch", "prune", "fetch.Fetch"}[k]
+	return []string{"commit", "commitWithTable", "DeleteHead", "merge", "merge(no-ff)", "merge(ff)", "fetch", "prune", "fetch.Fetch", "pull"}[k]
 }
 
 func c13TraceAt(trace []*xt.T, n int) string {
